@@ -14,6 +14,8 @@ for n in bad:
     sys.stderr.write(res[n][1][-1500:] + "\n")
 if "rel" in bad:
     sys.exit(1)
+from tracer import pcstep
+pcstep.ensure_built()
 from models import selfcheck
 selfcheck.run_all()
 print("setup ok")
